@@ -74,6 +74,9 @@ def jobs(tier, seed):
     for cls in ("ThresholdOptimizer", "CorrelationRemover", "GridSearch", "ExponentiatedGradient", "Adversarial"):
         for ci in range(0, len(hist), 12):
             js.append({"id": f"{cls}-{ci // 12}", "cls": cls, "histories": hist[ci:ci + 12]})
+    torch_hist = [h for h in hist if "k" not in h and "c" not in h and len(h) <= 3]
+    for ci in range(0, len(torch_hist), 6):
+        js.append({"id": f"AdvTorch-{ci // 6}", "cls": "AdvTorch", "histories": torch_hist[ci:ci + 6]})
     return js
 
 
@@ -248,7 +251,46 @@ class AdvAdapter(Adapter):
         return p
 
 
-ADAPTERS = {"ThresholdOptimizer": TOAdapter, "CorrelationRemover": CRAdapter, "GridSearch": GSAdapter, "ExponentiatedGradient": EGAdapter, "Adversarial": AdvAdapter}
+class AdvTorchAdapter(Adapter):
+    """the real torch backend with a mode-dependent layer (Dropout) in the predictor: concrete data, real networks"""
+
+    def datasets(self, mk):
+        return {"f1": "f1", "f2": "f2"}
+
+    def _d(self, D):
+        rng = np.random.default_rng(3 if D == "f1" else 4)
+        X = rng.normal(size=(24, 3))
+        return X, (X[:, 0] + 0.3 * rng.normal(size=24) > 0).astype(int), (X[:, 1] > 0).astype(int)
+
+    def make(self):
+        import torch
+        from fairlearn.adversarial import AdversarialFairnessClassifier
+
+        return AdversarialFairnessClassifier(backend="torch", predictor_model=[8, "relu", torch.nn.Dropout(0.5)], adversary_model=[3, "relu"], epochs=2, batch_size=8,
+                                             shuffle=False, random_state=0, warm_start=False)
+
+    def fit(self, est, D):
+        X, y, A = self._d(D)
+        return est.fit(X, y, sensitive_features=A)
+
+    def observe(self, est, D):
+        import torch
+
+        X, _, _ = self._d(D)
+        w = torch.cat([p.detach().flatten() for p in est.backendEngine_.predictor_model.parameters()]).numpy()
+        return [round(float(v), 6) for v in w] + [int(v) for v in est.predict(X)]
+
+    def predict(self, est, D, seed):
+        X, _, _ = self._d(D)
+        return [int(v) for v in est.predict(X)]
+
+    def params(self, est):
+        p = est.get_params(deep=False)
+        p.pop("predictor_model", None)
+        return p
+
+
+ADAPTERS = {"AdvTorch": AdvTorchAdapter, "ThresholdOptimizer": TOAdapter, "CorrelationRemover": CRAdapter, "GridSearch": GSAdapter, "ExponentiatedGradient": EGAdapter, "Adversarial": AdvAdapter}
 
 
 def _eq_params(a, b):
@@ -325,7 +367,7 @@ def _walk(ad, hist, mk, acc_items):
             acc_items.append(("same_seed_same_prediction", f1, f"{cls}:predict_repeat", {"history": hist}))
             acc_items.append(("prediction_leaves_fitted_state", f2, f"{cls}:predict_state", {"history": hist}))
         elif op == "k":
-            if isinstance(ad, AdvAdapter):
+            if isinstance(ad, (AdvAdapter, AdvTorchAdapter)):
                 continue  # pickling of the adversarial estimators is not part of the property
             before = ad.observe(est, D[cur])
             try:
